@@ -21,6 +21,7 @@
 #define SOLREADER2_HPP
 
 #include <cstdio>
+#include <type_traits>
 
 #include "mp/sol-reader2.h"
 
@@ -68,6 +69,9 @@ inline NLW2_SOLReadResultCode Read(
       return NLW2_SOLRead_Bad_Line;
     auto el = strtod(s = se, &se);
     if (se <= s)
+      return NLW2_SOLRead_Bad_Line;
+    if (std::is_integral<El>::value       // (int)el is undefined outside int
+        && !(el > -2147483649.0 && el < 2147483648.0))
       return NLW2_SOLRead_Bad_Line;
     v.second = (El)el;
   }
